@@ -142,7 +142,7 @@ def matcher(ctx, thorough):
         raise vf.MachineryError("matcher graph replay was vacuous: %s" % c)
     # ---- API histories over the deep configuration
     behs = ctx.tlc_behaviours("Blocklist", "BlMatch.tla", "Sim_Match_D3.cfg",
-                              num=400 if not thorough else 4000, depth=25, timeout=900)
+                              num=400 if not thorough else 1500, depth=25, timeout=900)
     blist = []
     for b in behs:
         steps = []
@@ -152,7 +152,7 @@ def matcher(ctx, thorough):
             blist.append(steps)
             ctx._distinct.add("match-beh:" + ";".join("%s%s" % (s["c"]["op"], s["c"].get("n")) for s in steps))
     inp = {"shapes": shapes, "qnames": qnames(["a", "b", "c"], 3), "nodes": {}, "edges": [],
-           "behaviours": blist, "serveEvery": 5 if not thorough else 3}
+           "behaviours": blist, "serveEvery": 5}
     res = ctx.go_driver("./c18", "TestMatcherReplay", inp, name="match_sim", timeout=1500)
     ctx.take_driver_result(res, "[BlMatch histories] ")
     c = res.get("counters", {})
@@ -266,7 +266,7 @@ def persist(ctx, thorough):
     # Crash at a (seeded) random point -- every prefix of a behaviour followed by Crash
     # is a behaviour of BlPersist with MaxCrash = 1.
     behs = ctx.tlc_behaviours("Blocklist", "MC_Persist.tla", "Sim_Persist_W3.cfg",
-                              num=150 if not thorough else 2500, depth=70, timeout=900)
+                              num=150 if not thorough else 1000, depth=70, timeout=900)
     rng = random.Random(ctx.seed)
     seen, scheds = set(), []
     for b in behs:
@@ -311,7 +311,7 @@ def seq_list(v):
 
 def stress(ctx, thorough):
     inp = {"shape": SHAPES[0], "universe": qnames(["a", "b", "c"], 3),
-           "rounds": 6 if not thorough else 40, "goroutines": 6, "ops": 60 if not thorough else 150,
+           "rounds": 6 if not thorough else 25, "goroutines": 6, "ops": 60 if not thorough else 150,
            "whitelist": [["c", "c"]]}
     res = ctx.go_driver("./c18", "TestPersistStress", inp, name="stress", timeout=1500)
     ctx.take_driver_result(res, "[stress] ")
